@@ -11,8 +11,9 @@ Definition text := list (Z * bool).
 Definition chars (s : text) : list chr := map (fun p => of_code (fst p) (snd p)) s.
 
 Inductive case :=
-| Single (s : text) (o : outcome)
-| Pair (s1 s2 : text) (o1 o2 : outcome) (pyeq hasheq : bool).
+| Single (s : text) (o : outcome) (stable : bool)   (* stable: same answer again, after use, after a cache drop *)
+| ExprC (e : expr) (o : outcome)                    (* an expression built through the API, compile_expr *)
+| Pair (same : bool) (s1 s2 : text) (o1 o2 : outcome) (pyeq hasheq : bool).
 
 Definition outcome_eqb (m i : outcome) : bool :=
   match m, i with
@@ -25,16 +26,18 @@ Definition outcome_eqb (m i : outcome) : bool :=
 (* codes: 1 outcome of text 1, 2 outcome of text 2 *)
 Definition corr_codes (c : case) : list Z :=
   match c with
-  | Single s o => chk 1 (outcome_eqb (compile_str (chars s)) o)
-  | Pair s1 s2 o1 o2 _ _ =>
+  | Single s o _ => chk 1 (outcome_eqb (compile_str (chars s)) o)
+  | ExprC e o => chk 1 (outcome_eqb (match create_graphs e [] with Some gs => Graphs gs | None => CompileError end) o)
+  | Pair _ s1 s2 o1 o2 _ _ =>
       chk 1 (outcome_eqb (compile_str (chars s1)) o1) ++ chk 2 (outcome_eqb (compile_str (chars s2)) o2)
   end.
 
 Definition law_codes (c : case) : list Z :=
   match c with
-  | Single s o => law_single (chars s) o
-  | Pair s1 s2 o1 o2 pyeq hasheq =>
-      law_single (chars s1) o1 ++ map (fun c => 20 + c) (law_single (chars s2) o2) ++ law_pair o1 o2 pyeq hasheq
+  | Single s o stable => law_single (chars s) o ++ chk 13 stable
+  | ExprC e o => law_expr e o
+  | Pair same s1 s2 o1 o2 pyeq hasheq =>
+      law_single (chars s1) o1 ++ map (fun c => 20 + c) (law_single (chars s2) o2) ++ law_pair same o1 o2 pyeq hasheq
   end.
 
 (* the parser must never run out of fuel on an input it rejects for that reason: fuel_for is proved sufficient
@@ -48,7 +51,7 @@ Definition fuel_codes (c : case) : list Z :=
                                    | None, None => true
                                    | _, _ => false end)
                end in
-  match c with Single s _ => one s | Pair s1 s2 _ _ _ _ => one s1 ++ one s2 end.
+  match c with Single s _ _ => one s | ExprC _ _ => [] | Pair _ s1 s2 _ _ _ _ => one s1 ++ one s2 end.
 
 (* ------------------------------------------------------------------ exhaustive grids *)
 (* 12 symbols: a b items + * . : , [ ] space e-acute (a non-ASCII word character) *)
